@@ -1041,3 +1041,51 @@ def r14(k: Kit) -> None:
                   'B: the client gets B\'s output and EOF, never an exit '
                   'status or CLOSE', _ft.loc(_fn),
                   _g2.describe_path(_w) if _w else None)
+    rep.rule('C09.R20', 'client listeners for forwarded connections '
+             '(SSHTCPClientListener / SSHUNIXClientListener.'
+             'process_connection): the application\'s session factory is '
+             'called before the channel is created and registered, so a '
+             'factory that refuses with ChannelOpenError (the documented '
+             'way) leaves no channel behind in conn._channels')
+    _nl = 0
+    for _q, _mk in (('listener.SSHTCPClientListener.process_connection',
+                     'create_tcp_channel'),
+                    ('listener.SSHUNIXClientListener.process_connection',
+                     'create_unix_channel')):
+        _fl = k.func(_q)
+        _gl = k.cfg(_fl)
+        _fac = [n.id for n, c in k.calls_named(_fl, '_session_factory',
+                                               'self')]
+        for _n, _c in k.calls_named(_fl, _mk):
+            _nl += 1
+            _w = _gl.path(_gl.entry, _n.id, blocked_nodes=_fac)
+            rep.check(bool(_fac) and _w is None and _n.id not in _fac,
+                      'C09.R20',
+                      key(_fl, 'factory may refuse before a channel exists'),
+                      'self._session_factory(...) on every path to the '
+                      'channel creation',
+                      'the channel is created and registered first: each '
+                      'forwarded open the factory refuses leaves one entry '
+                      'in conn._channels until the connection ends (5 '
+                      'refused connects, 5 channels)', k.loc(_fl, _n))
+    rep.floor('C09.R20', 'forwarded-open channel creations', _nl, 2)
+    rep.rule('C09.R21', 'SSHConnection._report_global_response: whatever '
+             'the reply (also none, for want_reply false), the next queued '
+             'global request is serviced before the function returns - '
+             'every path to the exit passes the test of '
+             '_global_request_queue; otherwise a request queued behind an '
+             'asynchronously handled no-reply request waits for ever on a '
+             'live connection')
+    _fg = k.func('connection.SSHConnection._report_global_response')
+    _gg = k.cfg(_fg)
+    _qt = [a.id for a in _gg.nodes if a.kind == 'atom' and
+           dotted(a.ast) == 'self._global_request_queue']
+    _w = _gg.path(_gg.entry, _gg.exit, blocked_nodes=_qt, follow_exc=False)
+    rep.check(bool(_qt) and _w is None, 'C09.R21',
+              key(_fg, 'queue serviced on every path'),
+              'no return before the queue test',
+              'tcpip-forward with want_reply=False handled by a coroutine, '
+              'then forward_remote_port(): the second request stays at the '
+              'head of the queue, the caller is released only by '
+              'conn.close()', _fg.loc(_fg.node),
+              _gg.describe_path(_w) if _w else None)
